@@ -37,9 +37,10 @@ func extractMset(repo string) error {
 		ext[f.Name] = f
 	}
 	opts := &Options{
-		Preloaded: map[string]*types.Package{protowirePath: w.Pkg},
-		Extern:    map[string]map[string]*FuncDef{protowirePath: ext},
-		Requires:  []string{"Gen.WireGo", "Msg.MsetGoRt"},
+		Preloaded:  map[string]*types.Package{protowirePath: w.Pkg},
+		Extern:     map[string]map[string]*FuncDef{protowirePath: ext},
+		ExternQual: map[string]string{protowirePath: "WireGo."},
+		Requires:   []string{"Gen.WireGo", "Msg.MsetGoRt"},
 	}
 	rel := "internal/encoding/messageset/messageset.go"
 	u, err := TranslateFile(filepath.Join(repo, filepath.FromSlash(rel)), opts)
